@@ -604,6 +604,12 @@ theorem s_host (st : St) (n i : Nat) (f : Frame) (hG : G c S st) (hF : FrameOk S
           · exact ⟨ih.out _ _ _ hG2, hF⟩
           · exact ⟨ih.icmp _ _ _ _ (ih.out _ _ _ hG2) trivial, hF⟩
       · exact ⟨hG2.bump n _, hF⟩
+      · split
+        · exact ⟨ih.icmp _ _ _ _ hG2 trivial, hF⟩
+        · exact ⟨hG2.emit_raised _, hF⟩
+      · split
+        · exact ⟨hG2.emit_raised _, hF⟩
+        · exact ⟨hG2.modOther n _ (fun _ => rfl) (fun _ => rfl), hF⟩
     · have hoff : nd.on = false := by simpa using hon
       simp only [hoff, Bool.false_eq_true, if_false, Bool.not_false, if_true]
       have hG2 := hsw _ hG
@@ -616,6 +622,12 @@ theorem s_host (st : St) (n i : Nat) (f : Frame) (hG : G c S st) (hF : FrameOk S
           · exact ⟨ih.out _ _ _ hG2, hF⟩
           · exact ⟨ih.icmp _ _ _ _ (ih.out _ _ _ hG2) trivial, hF⟩
       · exact ⟨hG2.bump n _, hF⟩
+      · split
+        · exact ⟨ih.icmp _ _ _ _ hG2 trivial, hF⟩
+        · exact ⟨hG2.emit_raised _, hF⟩
+      · split
+        · exact ⟨hG2.emit_raised _, hF⟩
+        · exact ⟨hG2.modOther n _ (fun _ => rfl) (fun _ => rfl), hF⟩
   · exact ⟨hG, hF⟩
 
 theorem s_router (st : St) (n i : Nat) (f : Frame) (hG : G c S st) (hF : FrameOk S f) (hR : IsRouter c n) :
@@ -625,39 +637,45 @@ theorem s_router (st : St) (n i : Nat) (f : Frame) (hG : G c S st) (hF : FrameOk
   · rename_i nd ifc hn hi
     split
     · exact ⟨hG, hF⟩
-    · have hG1 := hG.addArp n i f.srcIp f.srcMac hF.src
-      split
-      · rename_i own hown
-        have hG2 := hG1.emit_sw n f.id f.dstIp (f.dstMac == bcastMac) (fun _ => own_of_ifaceWithIp hG.cfg hn hown)
+    · split
+      · exact ⟨hG, hF⟩
+      · have hG1 := hG.addArp n i f.srcIp f.srcMac hF.src
         split
-        · rename_i sIp sMac tIp hpl
-          have hp := hF.pl
-          rw [hpl] at hp
+        · rename_i own hown
           split
-          · rename_i hc
-            have hip : ifc.ip = tIp := by
-              simp only [Bool.and_eq_true, beq_iff_eq] at hc; exact hc.2
-            refine ⟨ih.arpReply _ _ _ hG2 ⟨by rw [← hip]; exact hs.own hG.cfg hi, hp⟩ ?_, hF⟩
-            intro t ht
-            simp only [targetOf, Option.some.injEq] at ht
-            subst ht
-            exact Or.inr hp
-          · exact ⟨hG2, hF⟩
-        · rename_i sIp sMac tIp tMac hpl
-          have hp := hF.pl
-          rw [hpl] at hp
-          split
-          · exact ⟨hG2.addArp n i sIp sMac hp.1, hF⟩
-          · exact ⟨hG2, hF⟩
-        · split
-          · exact ⟨hG2, hF⟩
-          · split
-            · exact ⟨ih.out _ _ _ hG2, hF⟩
-            · exact ⟨ih.icmp _ _ _ _ (ih.out _ _ _ hG2) trivial, hF⟩
-        · split
-          · exact ⟨hG2, hF⟩
-          · exact ⟨hG2.bump n _, hF⟩
-      · exact ih.process _ _ _ _ hG1 hF hR
+          · exact ⟨hG1, hF⟩
+          · have hG2 := hG1.emit_sw n f.id f.dstIp (f.dstMac == bcastMac) (fun _ => own_of_ifaceWithIp hG.cfg hn hown)
+            split
+            · rename_i sIp sMac tIp hpl
+              have hp := hF.pl
+              rw [hpl] at hp
+              split
+              · rename_i hc
+                have hip : ifc.ip = tIp := by
+                  simp only [Bool.and_eq_true, beq_iff_eq] at hc; exact hc.2
+                refine ⟨ih.arpReply _ _ _ hG2 ⟨by rw [← hip]; exact hs.own hG.cfg hi, hp⟩ ?_, hF⟩
+                intro t ht
+                simp only [targetOf, Option.some.injEq] at ht
+                subst ht
+                exact Or.inr hp
+              · exact ⟨hG2, hF⟩
+            · rename_i sIp sMac tIp tMac hpl
+              have hp := hF.pl
+              rw [hpl] at hp
+              split
+              · exact ⟨hG2.addArp n i sIp sMac hp.1, hF⟩
+              · exact ⟨hG2, hF⟩
+            · split
+              · exact ⟨hG2, hF⟩
+              · split
+                · exact ⟨ih.out _ _ _ hG2, hF⟩
+                · exact ⟨ih.icmp _ _ _ _ (ih.out _ _ _ hG2) trivial, hF⟩
+            · split
+              · exact ⟨hG2, hF⟩
+              · exact ⟨hG2.bump n _, hF⟩
+            · exact ⟨hG2, hF⟩
+            · exact ⟨hG2, hF⟩
+        · exact ih.process _ _ _ _ hG1 hF hR
   · exact ⟨hG, hF⟩
 
 theorem s_process (st : St) (n i : Nat) (f : Frame) (hG : G c S st) (hF : FrameOk S f) (hR : IsRouter c n) :
